@@ -169,6 +169,27 @@ theorem inplace_decoder_stays_inside_its_buffer (lossy : Bool) (t mem0 : Buf) (i
 theorem unpadded_inplace_decoder_leaves_its_buffer :
     (match StrIn.run false #[34, 97, 98, 99] 1 with | .fault => true | _ => false) = true := by decide +kernel
 
+/-- **the escaper's tail load stays inside a mapped page**: `format_string` loads a whole 32-byte vector from the last, shorter
+    piece of the source string whenever `check_cross_page(ptr, 32)` is false — up to 31 bytes behind the string.  With the page
+    size and the vector width the translator reads from the source: if `(ptr & (page_size - 1)) + 32 > page_size` does not
+    hold, the last byte loaded lies in the page of `ptr`, which holds a byte of the string and is therefore mapped (the byte
+    BEHIND a string may be unmapped: seed C05f read exactly that one) -/
+theorem escaper_tail_load_stays_in_the_page (ptr : Nat)
+    (h : ¬ ((ptr &&& (Gen.pageSize - 1)) + Gen.stringBlockLanes > Gen.pageSize)) :
+    (ptr + Gen.stringBlockLanes - 1) / Gen.pageSize = ptr / Gen.pageSize := by
+  have hp : Gen.pageSize = 2 ^ 12 := by decide
+  have hl : Gen.stringBlockLanes = 32 := by decide
+  rw [hp, hl] at h ⊢
+  rw [Nat.and_two_pow_sub_one_eq_mod] at h
+  have h1 := Nat.div_add_mod ptr (2 ^ 12)
+  have h2 : ptr % 2 ^ 12 < 2 ^ 12 := Nat.mod_lt _ (by decide)
+  generalize ptr / 2 ^ 12 = q at h1 ⊢
+  generalize ptr % 2 ^ 12 = r at h h1 h2
+  have : ptr + 32 - 1 = 2 ^ 12 * q + (r + 31) := by omega
+  rw [this, Nat.mul_add_div (by decide)]
+  have : (r + 31) / 2 ^ 12 = 0 := Nat.div_eq_of_lt (by omega)
+  omega
+
 /-! non-vacuity -/
 example : Borrow.keyHome true (.faststr 7) = .reader := by decide
 example : Borrow.keyHome false (.faststr 7) = .callerInput := by decide
